@@ -225,6 +225,15 @@ def run(tier: str, seed: int, rep: Report, model: Model) -> dict:
         s = G.print_expr(e)
         for sc in scopes_for(rnd, e, n_scopes):
             cases.append((s, e, sc, i < n_front or parser is None))
+    # directed: the exponentiation table at its edges (negative exponents go through floats in the code: truncation,
+    # and the parity of an exponent beyond 2**53 is lost; the model carries exactly that)
+    pw = ("bin", "^", ("var", "a"), ("var", "b"))
+    pow_edges = [(x, y) for x in (-3, -2, -1, 0, 1, 2, 3, 2**53, -(2**53) - 1, 10**30)
+                 for y in (-1, -2, -3, -(2**53) + 1, -(2**53), -(2**53) - 1, -(2**53) - 2, -(10**30) - 1, -(2**64) - 1, 0, 1, 2, 3)]
+    rep.streams["pow_edges"] = len(pow_edges)
+    for x, y in pow_edges:
+        cases.append((G.print_expr(pw), pw, {"a": x, "b": y}, False))
+        cases.append(("isqrt(" + G.print_expr(pw) + ")", ("isqrt", pw), {"a": x, "b": y}, False))
     for x, e in named:
         s = x + "=" + G.print_expr(e)
         for sc in scopes_for(rnd, e, 2):
